@@ -12,39 +12,39 @@ P = {
     'C01': ('exploration', 'differential runtime monitor: generated core-language programs run by the real `meson setup`, Message:/assert/exit status compared with an independent reference interpreter; alias monitor on interpreter variables',
             'Held on the generated programs of this run (valid programs + single-fault erroneous variants); no claim beyond the sub-language generated.',
             'refmeson (my reading of Syntax.md/elementary yaml) is the oracle; CPython; fork server.', '2/C01'),
-    'C02': ('exploration', 'runtime contracts on the real Parser.parse (round-trip, token conservation, span slicing, exception policy) over exhaustive token sequences to a bound, soups, mutated corpus',
+    'C02': ('exploration', 'runtime contracts on the real Parser.parse (round-trip, token conservation, span slicing, exception policy) over exhaustive token sequences to a bound, soups, mutated corpus, every byte class inside every token kind, extreme literal lengths, and the whole depth band of 33 nesting shapes (every accepted tree must also be printable)',
             'Exhaustive to the token bound stated in evidence; sampled beyond it.', 'Lexer token stream is used for the conservation check; CPython.', '2/C02'),
-    'C03': ('exploration', 'argv dumper observed at the process boundary: build.ninja commands expanded by an independent ninja evaluator and run by /bin/sh, tests run by the real `meson test`; expected argv from the build definition',
+    'C03': ('exploration', 'argv dumper observed at the process boundary: build.ninja commands expanded by an independent ninja evaluator and run by /bin/sh, tests run by the real `meson test`; expected argv from the build definition; per-edge scope monitor (machine and project) for project/global arguments',
             'Held on the hostile argument strings x positions x wrapping modes listed in evidence.', 'mini-ninja evaluator, /bin/sh, dumper; POSIX only.', '2/C03'),
-    'C04': ('exploration', 'independent Ninja manifest parser + graph invariants (rules defined, single producer, acyclic, closed inputs, reachability) on build.ninja of generated and corpus projects; write/parse agreement hook',
+    'C04': ('exploration', 'independent Ninja manifest parser + graph invariants (rules defined, single producer, acyclic, closed inputs, reachability) on build.ninja of generated and corpus projects; write/parse agreement hook; directed probe matrices (documented build-by-default rule, extract_objects argument kinds, normalised-spelling collisions, subprojects reused after a failed optional subproject)',
             'Held on the generated/corpus configurations listed in evidence.', 'mini-ninja parser (self-tested) is trusted.', '2/C04'),
     'C05': ('exploration', 'happens-before race detection over strace-traced build steps + adversarial schedules executed by a reference ninja executor + hermetic per-edge replay',
             'One traced build decides all schedules under the stated assumption; sampled schedules and replays back it.', 'strace, gcc, mini-ninja executor; steps are functions of files read + argv.', '2/C05'),
-    'C06': ('exploration', 'perturbation of nondeterminism sources (PYTHONHASHSEED, env order, readdir order, build-dir history) with byte comparison of generated files; histories include killed-then-recovered configurations; mtime/inode monitor over replace_if_different outputs plus a fixed list of outputs on no-change reconfigure; repository test corpus',
+    'C06': ('exploration', 'perturbation of nondeterminism sources (PYTHONHASHSEED, env order, readdir order, build-dir history) with byte comparison of generated files; histories include killed-then-recovered configurations; mtime/inode monitor over replace_if_different outputs plus a fixed list of outputs on no-change reconfigure; wrap directories under several listing orders; dependency-policy histories compared with a fresh setup; repository test corpus',
             'Held on the projects x perturbations listed in evidence.', 'same absolute paths across runs; gcc present.', '2/C06'),
-    'C07': ('exploration', 'exhaustive source-subset enumeration through the real `meson setup` with distinct value per source (observed value names the winning source); validity invariant hook at coredata.save',
+    'C07': ('exploration', 'exhaustive source-subset enumeration through the real `meson setup` with distinct value per source (observed value names the winning source); validity invariant hook at coredata.save; command-line spellings, argument orders and entry points (setup / configure / reconfigure) as factors',
             'Exhaustive over 2^4 / 2^8 source subsets for the option kinds listed in evidence.', 'refoptions precedence table = Builtin-options.md.', '2/C07'),
-    'C08': ('exploration', 'history + executable model: random lifecycle histories, each command a separate process, effective values read back through the real coredata.load/get_value_for and compared with a reference lifecycle model (option files, default_options, late subproject, recorded command line) after every step; stratified edit kinds, directed and literal scripts',
+    'C08': ('exploration', 'history + executable model: random lifecycle histories, each command a separate process, effective values read back through the real coredata.load/get_value_for and compared with a reference lifecycle model (option files, default_options, late subproject, recorded command line) after every step; stratified edit kinds, hostile value alphabet, builtin options given once, three failure stages, directed and literal scripts',
             'Held on the histories of this run.', 'refoptions lifecycle model follows the property text.', '2/C08'),
     'C09': ('fault_enumeration', 'SIGKILL fault injection at every Python-level file-system mutation (plus torn writes) of each mutating command, follow-up `meson setup [--reconfigure]` and a later `--wipe` as oracle (exit status, option values before-or-target, every state/intro file readable); strace cross-check of the op list',
             'Every enumerated kill point of the listed commands x histories x directory-listing orders is executed, except that runs of >12 identical (file, op) writes are thinned and a wall-clock budget may leave points unexplored (both counted in the evidence; exhaustive=false).', 'kill = SIGKILL (page cache survives); rename atomicity assumed.', '2/C09'),
-    'C10': ('exploration', 'decision-table differential monitor through the real `meson setup` (distinct version per provider) + online trace checker "unpack never on unverified bytes" with fault injection at each acquisition step',
+    'C10': ('exploration', 'decision-table differential monitor through the real `meson setup` (distinct version per provider) + online trace checker "unpack never on unverified bytes" with fault injection at each acquisition step; second-process interleavings held by marker files between unpack and patch',
             'Covers the factor cross product listed in evidence; integrity classes x locations x fault points.', 'refdeps table = my reading of the cited docs; pkg-config only; file:// URLs.', '2/C10'),
-    'C11': ('exploration', 'audit-hook containment monitor inside `meson install` + before/after snapshots of DESTDIR and everything else + expected tree from the generator; install/reinstall/uninstall/dry-run histories',
+    'C11': ('exploration', 'audit-hook containment monitor inside `meson install` + before/after snapshots of DESTDIR and everything else + expected tree from the generator; install/reinstall/uninstall/dry-run/aborted/killed histories; install plan and installed map observed after setup (optional subprojects that fail)',
             'Held on the projects x histories of this run.', 'runs as root; audit hook sees Python-level mutations (strace in thorough).', '2/C11'),
-    'C12': ('exploration', 'offline interval checker over start/end event logs written by probe test programs, tallies recomputed from testlog.json vs summary vs exit status',
+    'C12': ('exploration', 'offline interval checker over start/end event logs written by probe test programs, tallies recomputed from testlog.json vs summary vs exit status; probes speak exitcode, tap, gtest (report kinds) and rust (libtest) protocols; in-process kill/timeout monitors; full --slice sweeps',
             'Each run is one interleaving; K runs with adversarial durations.', 'probe intervals lie inside true process lifetimes; monotonic clock.', '2/C12'),
-    'C13': ('exploration', 'shadow-model monitor: eager reference list updated on every hooked CompilerArgs operation and compared at every read; exhaustive op sequences to a bound + random + inside real setup runs',
+    'C13': ('exploration', 'shadow-model monitor: eager reference list updated on every hooked CompilerArgs operation and compared at every read; exhaustive op sequences to a bound + random + inside real setup runs (second increments-only shadow); end-to-end ARGS/LINK_ARGS of build.ninja vs the eager meaning, incl. what pkg-config itself prints',
             'Exhaustive to the sequence bound in evidence; random beyond.', 'refargs = property text.', '2/C13'),
-    'C14': ('exploration', 'runtime contracts on do_conf_str/configure_file against an independent left-to-right placeholder scanner; copy-through and no-rescan obligations',
+    'C14': ('exploration', 'runtime contracts on do_conf_str/configure_file against an independent left-to-right placeholder scanner; copy-through and no-rescan obligations; sequences of configure_file formats on one configuration_data object with read-back; build-directory history with planted leftover files (fresh vs dirty directory)',
             'Held on the generated templates x dictionaries of this run.', 'escape semantics pinned by upstream fixture config6.h.in.', '2/C14'),
-    'C15': ('exploration', 'relational monitors between artefacts of one configuration: intro-*.json vs build.ninja (independent parser) vs argv/env seen by tests vs installed tree vs get_option messages vs files opened (audit hook)',
+    'C15': ('exploration', 'relational monitors between artefacts of one configuration: intro-*.json vs build.ninja (independent parser) vs argv/env seen by tests vs installed tree vs get_option messages vs files opened (audit hook); environment and argv of every execution under test setups and --repeat; real `meson install --destdir` against the plan',
             'Held on the generated/corpus projects of this run.', 'mini-ninja parser; dumper.', '2/C15'),
-    'C16': ('exploration', 'contracts on the real Formatter.format (parses, same tree modulo documented normalisations via independent parser, comment conservation, idempotence) over generated + mutated corpus programs x formatter configs',
+    'C16': ('exploration', 'contracts on the real Formatter.format (parses, same tree modulo documented normalisations via independent parser, comment conservation, idempotence) over generated + mutated corpus programs x formatter configs; CLI layer (check-only / inplace / multi-file invocations vs single-file runs) and pristine-process history probe',
             'Held on programs x configurations of this run.', 'refmeson parser.', '2/C16'),
-    'C17': ('exploration', 'differential monitor around the real `meson rewrite`: textual locality diff + reference evaluation of untouched arguments before/after + round-trip laws',
+    'C17': ('exploration', 'differential monitor around the real `meson rewrite`: textual locality diff + reference evaluation of untouched arguments before/after + round-trip laws + batch-vs-stepwise; directed probe families (lists shared through indirection, template-identical build files addressed by target id)',
             'Held on generated projects x commands of this run.', 'refmeson evaluator.', '2/C17'),
-    'C18': ('exploration', 'differential monitor of TAPParser against an independent TAP state machine over exhaustive line sequences to a bound + random streams; never-raises and monotone-counter contracts on parse_line',
+    'C18': ('exploration', 'differential monitor of TAPParser against an independent TAP state machine over exhaustive line sequences to a bound + random streams; never-raises and monotone-counter contracts on parse_line; the same differential monitor on parse_async; verdict fold through the real `meson test` incl. death by signal',
             'Exhaustive to the line bound in evidence.', 'reftap = TAP 12/13 spec + property text.', '2/C18'),
     'C19': ('exploration', 'order/soundness axioms evaluated as contracts on the real Version/version_compare/Range over an exhaustive finite version domain',
             'Exhaustive over the domain in evidence (pairs, triples on subdomain).', 'axioms only; no reference implementation.', '2/C19'),
